@@ -109,6 +109,10 @@ class Interp:
 
         def one(A, B):
             if A.shape == (1, 1):
+                if it.dom.is_zero(A[0, 0]):
+                    # minimum-norm least squares of the zero system: the zero solution (this is why the library uses it
+                    # where innovations can be exactly singular)
+                    return np.vectorize(lambda b: it.dom.const(0), otypes=[object])(B)
                 return np.vectorize(lambda b: it.dom.div(b, A[0, 0]), otypes=[object])(B)
             return it.dom.lstsq(A, B)
         if A.ndim == 2:
